@@ -15,9 +15,15 @@ Nested limits: a read that stalls inside a channel operation must end with Scrap
 min(timeout_transport counted from the start of that read, what is left of timeout_ops) (+ SLACK); `limit pair` cases
 run every mechanism under every pair (transport < ops, = ops, > ops, either one 0, both 0).  When model and
 implementation differ on a case the oracle accepted, the search first re-runs that case and its neighbours over the
-pairs of limits (far apart) under the oracle and reports what fails with its replay."""
+pairs of limits (far apart) under the oracle and reports what fails with its replay.
+Peer EOF (`eof` step): the device ends its side of the session, reads answer EOF at once, the socket stays open and
+isalive() turns False - during the telnet login (cannot complete: timeout_ops must end it AND close the transport, `res_open`
+observes the close on the fake socket / stream), during other operations (connection error at once).
+Re-opened sessions (`prelude`): sessions cut half-way through a channel operation (drop / cancel / timeout) on the same
+objects, a re-open, then a silent device: the stalled call is judged by the configured limits."""
 import json
 import os
+import random
 
 from . import common
 from . import c07_impl as impl
@@ -71,6 +77,22 @@ def last_kind(case):
     return case["steps"][-1][0] if case["steps"] else None
 
 
+def eof_login(case):
+    """the device ended its side of the session (every read: EOF at once, the socket stays open) during the in-channel
+    telnet login: the login answers EOF with a return and tries again, so it cannot complete - only timeout_ops ends it"""
+    return last_kind(case) == "eof" and case["level"] == "op" and case.get("op") == "channel_authenticate_telnet"
+
+
+def cannot_complete(case):
+    return last_kind(case) in ("stall", "stall_closed") or eof_login(case)
+
+
+def still_open(obs):
+    """has the transport been closed?  What it holds (socket / stream / the scripted transport itself), not isalive():
+    after an EOF a transport reports not-alive with everything still open"""
+    return obs.get("res_open", obs["alive"])
+
+
 def poll_ms(case):
     if case["stack"] == "async" and case["level"] == "op":
         if case["op"] == "channel_authenticate_ssh":
@@ -113,6 +135,8 @@ def limit_of(case):
         return case["t_tr"]
     if case["level"] == "cleaf":
         return case["t_ops"]
+    if eof_login(case):
+        return case["t_ops"]              # no read stalls: every read answers (EOF) at once
     due = []
     if case["t_ops"]:
         due.append(case["t_ops"])
@@ -145,7 +169,7 @@ def may_time_out(case):
 def default_watchdog(case):
     ts = [t for t in (case["t_ops"], case["t_tr"]) if t]
     lim = limit_of(case)
-    if last_kind(case) in ("stall", "stall_closed") and not lim:
+    if cannot_complete(case) and not lim:
         return 0.35                                  # no limit: watch that nothing fires
     return max(ts + [script_duration(case)]) + 1.6
 
@@ -158,10 +182,11 @@ def oracle(case, obs):
     f = []
     out = obs["out"] or {}
     lk = last_kind(case)
-    stall = lk in ("stall", "stall_closed")
+    stall = cannot_complete(case)
     lim = limit_of(case)
     m = mech_of(case)
     is_timeout = out.get("cls") == "ScrapliTimeout"
+    is_open = still_open(obs)
     if stall and lim:
         env_ok = not (m == "thread" and lk == "stall")   # closing the transport must end a blocked read
         if env_ok:
@@ -172,27 +197,36 @@ def oracle(case, obs):
                 f.append(("outcome", "stalled call ended with %s instead of ScrapliTimeout" % (out.get("cls") or out.get("kind"))))
             elif obs["elapsed"] > lim + SLACK:
                 f.append(("timing", "ScrapliTimeout after %.2f s for a limit of %.3f s%s" % (obs["elapsed"], lim, limit_text(case))))
-            if is_timeout and not obs["hang"] and obs["alive"] != bool(case["no_term"]):
-                f.append(("state", "transport alive=%s after the timeout with NO_TERMINATE_ON_TIMEOUT=%s" % (obs["alive"], case["no_term"])))
+            if is_timeout and not obs["hang"] and is_open != bool(case["no_term"]):
+                f.append(("state", "transport open=%s (isalive()=%s) after the timeout with NO_TERMINATE_ON_TIMEOUT=%s" % (
+                    is_open, obs["alive"], case["no_term"])))
     elif stall and not lim:
         if is_timeout and not obs["hang"]:
             f.append(("outcome", "ScrapliTimeout raised although the timeout is 0 (disabled)"))
         elif not obs["hang"]:
             f.append(("outcome", "a stalled call with no limit ended on its own: %r" % (out,)))
-        if not obs["alive"]:
+        if not is_open:
             f.append(("state", "transport closed although no limit applies"))
     else:
         # the script lets the call finish: a timeout is legitimate only if the call is slower than the limit
         if not may_time_out(case):
-            want = "Boom" if lk == "exc" else None
-            if want and out.get("cls") != want:
-                f.append(("outcome", "the call's own exception became %r" % (out,)))
+            # (a session the device ended: the operation fails with the connection error, at once, nothing times out)
+            want = "Boom" if lk == "exc" else "ScrapliConnectionError" if lk == "eof" else None
+            if want and (out.get("cls") != want or obs["hang"]):
+                f.append(("outcome", "the call's own exception became %r%s" % (out, " (only when the harness ended the session)" if obs["hang"] else "")))
             if not want and out.get("kind") != "ret":
                 f.append(("outcome", "a call that completes in time ended with %r" % (out,)))
-            if not obs["alive"]:
+            if not is_open:
                 f.append(("state", "transport closed although nothing timed out"))
-        elif is_timeout and obs["alive"] != bool(case["no_term"]):
-            f.append(("state", "transport alive=%s after the timeout with NO_TERMINATE_ON_TIMEOUT=%s" % (obs["alive"], case["no_term"])))
+        elif is_timeout and is_open != bool(case["no_term"]):
+            f.append(("state", "transport open=%s (isalive()=%s) after the timeout with NO_TERMINATE_ON_TIMEOUT=%s" % (
+                is_open, obs["alive"], case["no_term"])))
+    # re-opened after sessions that ended half-way through an operation: the limits in force are the configured ones
+    if case.get("prelude") and "limits_at_start" in obs:
+        conf, got = [case["t_ops"], case["t_tr"]], list(obs["limits_at_start"])
+        if got != conf:
+            f.append(("state", "the session opened after %s starts with (timeout_ops, timeout_transport) = %s, configured: %s" % (
+                " / ".join("%s ended by %s" % (p["op"], p["abort"]) for p in case["prelude"]), got, conf)))
     # the mechanism that applies (sync): observed from inside the wrapped call
     if case["stack"] == "sync" and obs.get("mech_seen"):
         active = {"tleaf": bool(case["t_tr"]), "real": bool(case["t_tr"]), "cleaf": bool(case["t_ops"]),
@@ -256,7 +290,7 @@ def oracle(case, obs):
 def signature_of(case, fails):
     kinds = {k for k, _ in fails}
     lk = last_kind(case)
-    if mech_of(case) == "thread" and case["no_term"] and lk in ("stall", "stall_closed") and limit_of(case) and kinds == {"timing"}:
+    if mech_of(case) == "thread" and case["no_term"] and cannot_complete(case) and limit_of(case) and kinds == {"timing"}:
         return SIG_JOIN
     if (mech_of(case) == "signal" and case["level"] == "op" and case["wrapped"] and case["t_ops"] and case["t_tr"] >= case["t_ops"]
             and not case.get("dribble") and kinds == {"timing"}):
@@ -546,6 +580,7 @@ def leaf_terms(case):
         elif k == "stall":
             out.append("Stall")
         else:
+            # (also "eof" during the telnet login: a body that cannot complete and that closing the transport ends)
             out.append("StallClosed")
     if case.get("dribble"):
         out.append("Stall")
@@ -590,10 +625,10 @@ def case_term(case, obs):
     fields = [
         coq_bool(case["stack"] == "async"), coq_bytes(cls.encode()), coq_bool(case.get("windows", False)),
         coq_bool(case.get("main_thread", True)), coq_bool(chan), str(ms(case["t_ops"])), str(ms(case["t_tr"])),
-        coq_bytes(fo.encode()), coq_bool(bool(case["wrapped"]) and level == "op"), str(poll_ms(case)),
+        coq_bytes(fo.encode()), coq_bool(bool(case["wrapped"]) and level == "op" and not eof_login(case)), str(poll_ms(case)),
         coq_bool(bool(case["lock"]) and chan), coq_bool(case["no_term"]),
         coq_list(leaf_terms(case)), hnd, str(ms(pt[0])), str(ms(pt[1])),
-        io, str(ms(obs["elapsed"])), coq_bool(obs["alive"]), coq_bool(obs["handler_restored"]), str(tclass),
+        io, str(ms(obs["elapsed"])), coq_bool(still_open(obs)), coq_bool(obs["handler_restored"]), str(tclass),
         str(ms(rem)), str(ms(ival)), "%d%%nat" % obs["leftover_threads"], coq_bool(obs["lock_held"]),
         "%d%%nat" % max(obs.get("leftover_tasks", 0), obs.get("reads_in_flight", 0)),
         coq_list(["Ret 0 0"] * (len(impl.FOLLOW_OPS[case["follow"]][1]) if case.get("follow") else 0)),
@@ -664,7 +699,7 @@ def prev_state(rng, allow_short, T):
 
 def in_known_region(case):
     lk = last_kind(case)
-    if mech_of(case) == "thread" and case["no_term"] and lk in ("stall", "stall_closed") and limit_of(case):
+    if mech_of(case) == "thread" and case["no_term"] and cannot_complete(case) and limit_of(case):
         return SIG_JOIN
     if (mech_of(case) == "signal" and case["level"] == "op" and case["wrapped"] and case["t_ops"] and case["t_tr"]
             and case["t_tr"] >= case["t_ops"] and lk in ("stall", "stall_closed") and not case.get("dribble")):
@@ -864,6 +899,156 @@ def gen_real_case(rng, real=None):
     c.update(prev_state(rng, allow_short=False, T=T))
     c["label"] = "real %s T=%s %s" % (real, T, kind)
     return c
+
+
+# --------------------------------------------------------------------------------------------
+# peers that end their side of the session (EOF on every read, the socket / stream stays open)
+# --------------------------------------------------------------------------------------------
+EOF_MECHS = [("sync", "thread-real-telnet", dict(cls="TelnetTransport"), "telnet"),
+             ("sync", "signal", dict(cls="ScriptedTransport"), None),
+             ("sync", "thread-class-system", dict(cls="SystemTransport"), None),
+             ("sync", "thread-non-main", dict(cls="ScriptedTransport", main_thread=False), None),
+             ("sync", "thread-windows", dict(cls="ScriptedTransport", windows=True), None),
+             ("async", "asyncio", dict(cls="ScriptedAsyncTransport"), None),
+             ("async", "asyncio-real-asynctelnet", dict(cls="AsynctelnetTransport"), "asynctelnet"),
+             ("async", "asyncio-real-asyncssh", dict(cls="AsyncsshTransport"), "asyncssh")]
+EOF_ONLY = ("the operation ends with the transport's connection error (the model's reads return, raise the harness's "
+            "exception or stall): judged by the oracle only")
+
+
+def eof_case(mech, op, k, T, t_tr, no_term=False, lock=False):
+    """a channel operation during which the device ends the session after k reads: the telnet login answers EOF with a
+    return and tries again (cannot complete: timeout_ops ends it), any other operation fails with the connection error"""
+    stack, mname, mkw, real = mech
+    c = mk(stack=stack, level="op", op=op, t_ops=T, t_tr=t_tr, wrapped=True, no_term=no_term, lock=lock, mech=mname,
+           prev_handler="user", prev_timer=[50.0, 0.0], **mkw)
+    if real:
+        c["real"] = real
+    c["steps"] = [("data", x.hex()) for x in impl.STREAMS[op][:k]] + [("eof",)]
+    c["stall_point"] = "peer ended the session, %s" % impl.STALL_LABELS[op][k]
+    if in_known_region(c) == SIG_JOIN:
+        c["no_term"] = False              # (the known region, as in the other generators)
+    if not eof_login(c):
+        c["oracle_only"] = EOF_ONLY
+    c["label"] = "peer EOF %s %s k=%d ops=%s tr=%s nt=%s" % (mname, op, k, T, t_tr, c["no_term"])
+    return c
+
+
+def eof_cases(rng, full=False):
+    out = []
+    off = rng.randrange(1000)
+    login = "channel_authenticate_telnet"
+    # (1) during the in-channel telnet login, every mechanism (the real sync / asyncio telnet transports among them)
+    for mi, mech in enumerate(EOF_MECHS[:7]):
+        for j in (range(12) if full else [0]):
+            n = off + mi * 5 + j
+            is_async = mech[0] == "async"
+            k = n % (2 if is_async else 3)
+            T = (0.2, 0.3)[n % 2] if is_async else (0.1, 0.2)[n % 2]
+            out.append(eof_case(mech, login, k, T, (0.0, 1.5)[(n // 2) % 2], no_term=bool((n // 3) % 2), lock=bool((n // 4) % 2)))
+    # no limit at all: the login goes on until somebody ends it (sync; asyncio with timeout_ops = 0 is left to C06)
+    out.append(eof_case(EOF_MECHS[0], login, 0, 0.0, 0.0))
+    # (2) during the other operations: they end with the connection error at once, nothing is closed, nothing left behind
+    others = [o for o in sorted(impl.OPS) if o != login]
+    for mi, mech in enumerate(EOF_MECHS):
+        for j in (range(6) if full else [0]):
+            n = off + mi * 3 + j
+            op = others[n % len(others)]
+            # (timeout_ops far away: the asyncio login loops sleep 0.1 s per read before they get to the EOF)
+            out.append(eof_case(mech, op, (n // 2) % len(impl.STREAMS[op]), 2.0, (0.0, 0.2, 1.5)[n % 3],
+                                no_term=bool((n // 3) % 2), lock=bool(n % 2)))
+    # (3) one decorated transport read / channel method
+    for stack, mname, mkw, real in (EOF_MECHS[1], EOF_MECHS[2], EOF_MECHS[5]):
+        for level in ("tleaf", "cleaf"):
+            c = mk(stack=stack, level=level, steps=[("eof",)], mech=mname, wrapped=(level == "tleaf"), fname="get_prompt",
+                   oracle_only=EOF_ONLY, label="peer EOF %s %s" % (level, mname), **mkw)
+            c["t_tr" if level == "tleaf" else "t_ops"] = 0.2
+            out.append(c)
+    for real in ("telnet", "asynctelnet"):
+        out.append(mk(stack="async" if real.startswith("async") else "sync", level="real", real=real, t_tr=0.2, cls="",
+                      steps=[("eof",)], mech="real-" + real, oracle_only=EOF_ONLY, label="peer EOF real %s read()" % real))
+    return out
+
+
+# --------------------------------------------------------------------------------------------
+# sessions that end half-way through an operation, a re-open on the SAME objects, then a silent device
+# --------------------------------------------------------------------------------------------
+REOPEN_MECHS = [("async", "asyncio", dict(cls="ScriptedAsyncTransport"), None),
+                ("async", "asyncio-real-asynctelnet", dict(cls="AsynctelnetTransport"), "asynctelnet"),
+                ("async", "asyncio-real-asyncssh", dict(cls="AsyncsshTransport"), "asyncssh"),
+                ("sync", "signal", dict(cls="ScriptedTransport"), None),
+                ("sync", "thread-class-system", dict(cls="SystemTransport"), None),
+                ("sync", "thread-non-main", dict(cls="ScriptedTransport", main_thread=False), None)]
+
+
+def reopen_case(rng, mech, aborts, ops=None, rds=None, final=None):
+    """configured limits; 1-2 sessions each ending half-way through a real channel operation (`aborts`: the device drops
+    the session / the caller cancels the operation / its timeout_ops fires), every one followed by a re-open on the same
+    transport + channel objects; then the device of the last session stays silent.  The call under test is the stalled
+    call of the last session: it is judged by the CONFIGURED limits, as if it were the first call on fresh objects"""
+    stack, mname, mkw, real = mech
+    timed = "timeout" in aborts
+    if timed:
+        t_ops, t_tr = 0.1, 0.2            # (the operation's own limit has to end the earlier session: a short one)
+    else:
+        t_ops, t_tr = rng.choice([(0.0, 0.1), (0.0, 0.2), (2.0, 0.1)])
+    level = final or rng.choice(["tleaf", "op"])
+    c = mk(stack=stack, level=level, t_ops=t_ops, t_tr=t_tr, wrapped=True, mech=mname + "-reopened",
+           no_term=rng.random() < 0.4, lock=rng.random() < 0.5, **mkw)
+    if real:
+        c["real"] = real
+    if level == "op":
+        c["op"] = "get_prompt"
+        k = rng.randrange(2)
+        c["steps"] = [("data", x.hex()) for x in impl.STREAMS["get_prompt"][:k]]
+        c["stall_point"] = impl.STALL_LABELS["get_prompt"][k] + " (re-opened)"
+    c["steps"] = list(c["steps"]) + [(rng.choice(["stall", "stall_closed"]),)]
+    if mech_of(c) == "thread":
+        c["no_term"] = False
+        c["steps"][-1] = ("stall_closed",)
+    if in_known_region(c) == SIG_OVERSHOOT:
+        c.update(level="tleaf", steps=[c["steps"][-1]])      # (signal over signal: the known region)
+        c.pop("op", None)
+    pre = []
+    for i, a in enumerate(aborts):
+        op = (ops[i] if ops else None) or rng.choice(["send_input_and_read"] * 3 + ["send_input", "get_prompt"])
+        s = dict(op=op, abort=a, reopen=rng.random() < 0.7,
+                 k=rng.choice([1, 1, 2, 3, 0]) if op != "get_prompt" else rng.randrange(3),
+                 stall="stall_closed" if mech_of(c) == "thread" else rng.choice(["stall", "stall_closed"]))
+        if op == "send_input_and_read":
+            s["read_duration"] = (rds[i] if rds else None) or rng.choice([0.4, 0.9, 1.5])
+            if mech_of(c) == "signal" and a == "timeout":
+                s["read_duration"] = rng.choice([0.4, 0.9])  # (>= 1: a decorated read under the operation, the known region)
+        pre.append(s)
+    if mech_of(c) == "signal" and any(s["op"] == "send_input_and_read" and s["abort"] == "timeout" for s in pre):
+        # (the ScrapliTimeout raised by the signal handler inside send_input_and_read's read loop is swallowed by that loop's
+        # suppress(ScrapliTimeout) - C14's ground; with the transport closed the next read ends the operation all the same)
+        c["no_term"] = False
+    c["prelude"] = pre
+    c.update(prev_state(rng, allow_short=False, T=0.1))
+    c["label"] = "re-opened %s after %s; then %s %s (ops=%s tr=%s nt=%s)" % (
+        mname, " + ".join("%s%s cut by %s at read %d" % (s["op"], "(read_duration=%s)" % s["read_duration"] if "read_duration" in s else "",
+                                                       s["abort"], s["k"]) for s in pre),
+        "transport.read()" if c["level"] == "tleaf" else "get_prompt", c["steps"][-1][0], t_ops, t_tr, c["no_term"])
+    return c
+
+
+def reopen_cases(rng, n_random):
+    out = []
+    sar = "send_input_and_read"
+    # every way a session can end half-way x the asyncio transports, the temporary read_duration below and above 1 s
+    for mech in REOPEN_MECHS[:3]:
+        for i, a in enumerate(("drop", "cancel", "timeout")):
+            if mech[3] == "asyncssh" and a != "drop":
+                continue
+            out.append(reopen_case(rng, mech, [a], ops=[sar], rds=[(0.9, 0.4, 1.5)[i]], final=("tleaf", "op", "tleaf")[i]))
+    for mech in REOPEN_MECHS[3:]:
+        out.append(reopen_case(rng, mech, [rng.choice(["drop", "timeout"])], ops=[sar], rds=[0.9]))
+    for _ in range(n_random):
+        mech = rng.choice(REOPEN_MECHS)
+        kinds = ["drop", "timeout"] + (["cancel"] if mech[0] == "async" else [])
+        out.append(reopen_case(rng, mech, [rng.choice(kinds) for _ in range(rng.choice([1, 1, 2]))]))
+    return out
 
 
 def corpus():
@@ -1140,6 +1325,9 @@ def run(rep):
             "nesting": {}, "hang_cases": 0, "known_replayed": {}, "runtime": {}, "search_cases": 0, "lock_on": 0,
             "asyncio_nested_outer_first": {"no_terminate on": 0, "no_terminate off": 0}, "asyncio_over_real_transport": {},
             "asyncio_follow_up_run": {}, "asyncio_task_observed": 0, "limit_pairs_stalled_op": {}, "oracle_only": 0,
+            "peer_eof": {"during_login": {}, "during_operation": {}, "single_call": {}},
+            "reopened_after_cut_session": {"by_mechanism": {}, "cut_by": {}, "cut_operation": {}, "sessions_before": {},
+                                           "final_call": {}, "earlier_session_outcomes": {}},
             "histories": {"count": 0, "calls": 0, "by_length": {}, "by_class": {}, "first_thread": {"main": 0, "worker": 0},
                           "calls_by_mechanism": {}, "stalls": 0, "thread_switches": {}, "stall_right_after_switch": {},
                           "mechanism_changes_on_one_object": 0, "reopened_after_timeout": 0}}
@@ -1149,6 +1337,10 @@ def run(rep):
     # every mechanism x every pair of limits of a channel operation over a decorated read (transport < ops, = ops, > ops,
     # either one 0), and a stall after reads that took a while
     cases = corpus() + slow_cases() + limit_pair_cases(rng, full=thorough) + slow_read_cases()
+    # peers that end the session (EOF, socket still open) during the login / during operations; sessions cut half-way,
+    # re-opened on the same objects, then a silent device
+    extra_rng = random.Random("c07-eof-reopen-%s" % rep.seed)      # (its own stream: the cases above stay what they were)
+    extra = eof_cases(extra_rng, full=thorough) + reopen_cases(extra_rng, 40 if thorough else 5)
     n_leaf, n_op, n_real, n_nested = (420, 420, 80, 120) if thorough else (52, 56, 10, 12)
     for T in (0.0, 0.0, 0.05, 0.3):
         cases.append(gen_leaf_case(rng, boundary=T))
@@ -1167,6 +1359,7 @@ def run(rep):
         cases.append(gen_real_case(rng, real=real))
     for _ in range(n_real):
         cases.append(gen_real_case(rng))
+    cases += extra
 
     done, terms, oracle_fail = [], [], []
     for c in cases:
@@ -1181,7 +1374,7 @@ def run(rep):
         terms.append(None if case.get("oracle_only") else case_term(case, obs))
         m = mech_of(case)
         lk = last_kind(case) or "empty"
-        nontrivial = lk in ("stall", "stall_closed") or any(s[0] in ("ret", "exc") and s[1] for s in case["steps"])
+        nontrivial = lk in ("stall", "stall_closed", "eof") or any(s[0] in ("ret", "exc") and s[1] for s in case["steps"])
         rep.case(("c", json.dumps({k: v for k, v in case.items() if k not in ("label", "watchdog")}, sort_keys=True)), nontrivial=nontrivial)
         dist["by_mechanism"][case.get("mech", m)] = dist["by_mechanism"].get(case.get("mech", m), 0) + 1
         dist["by_level"][case["level"]] = dist["by_level"].get(case["level"], 0) + 1
@@ -1214,6 +1407,19 @@ def run(rep):
             d = dist["limit_pairs_stalled_op"].setdefault(rel, {})
             d[m] = d.get(m, 0) + 1
         dist["oracle_only"] += 1 if case.get("oracle_only") else 0
+        if lk == "eof":
+            d = dist["peer_eof"]["during_login" if eof_login(case) else "during_operation" if case["level"] == "op" else "single_call"]
+            d[case.get("mech", m)] = d.get(case.get("mech", m), 0) + 1
+        if case.get("prelude"):
+            d = dist["reopened_after_cut_session"]
+            for key, val in [("by_mechanism", case["mech"]), ("sessions_before", str(len(case["prelude"]))),
+                             ("final_call", "%s/%s" % (case["level"], lk))]:
+                d[key][val] = d[key].get(val, 0) + 1
+            for p, po in zip(case["prelude"], obs.get("prelude") or []):
+                d["cut_by"][p["abort"]] = d["cut_by"].get(p["abort"], 0) + 1
+                d["cut_operation"][p["op"]] = d["cut_operation"].get(p["op"], 0) + 1
+                ok = "%s: %s" % (p["abort"], (po["out"] or {}).get("cls") or (po["out"] or {}).get("kind"))
+                d["earlier_session_outcomes"][ok] = d["earlier_session_outcomes"].get(ok, 0) + 1
         if fails:
             oracle_fail.append(len(done) - 1)
     for ix in (0, len(done) // 2, len(done) - 1):
@@ -1395,6 +1601,21 @@ MANIFEST = {
             "only one (ScrapliTimeout within its limit, transport closed iff NO_TERMINATE off, handler / timer / threads / lock back, "
             "and the mechanism seen in force from inside the wrapped call - scrapli's SIGALRM handler installed / body running in a "
             "thread other than the caller's - is the one that applies to THAT call's thread) and compared with run_hist by vm_compute. "
+            "Peers that END the session (every read answers EOF at once, the socket / stream stays open, isalive() turns False): during the "
+            "in-channel telnet login - which answers an EOF with a return and tries again, so only timeout_ops ends it - after 0-2 reads, "
+            "under every mechanism (real TelnetTransport / AsynctelnetTransport over fakes, scripted transports named on both sides of "
+            "the split, non-main thread, windows flag, asyncio), timeout_transport off / far away, NO_TERMINATE on and off, also with no "
+            "limit at all: ScrapliTimeout within timeout_ops, and the transport CLOSED afterwards iff NO_TERMINATE is off, where closed is "
+            "observed on what the transport holds (the fake socket's / stream's close, the scripted transport's own flag), not on isalive(); "
+            "during the other operations and single decorated calls: the connection error at once, nothing closed, nothing left behind. "
+            "Re-opened sessions: on ONE transport + channel object 1-2 sessions end half-way through a real channel operation "
+            "(send_input_and_read with read_duration below / above 1 s, send_input, get_prompt; the device drops the session, the caller "
+            "cancels the operation - asyncio -, its timeout_ops fires), each followed by a re-open (asynctelnet: the real open() with "
+            "only the dialling replaced), then the device stays silent: the stalled transport.read() / get_prompt of the last session is "
+            "judged by the CONFIGURED limits exactly like a first call on fresh objects (oracle + model), and the limits found on the "
+            "objects when that session starts must be the configured pair; asyncio over scripted / real asynctelnet / asyncssh "
+            "transports, sync under the signal and both worker-thread selections. A harness thread ends a call that stops giving the event "
+            "loop a turn, and every scripted write refuses once the case is released, so a login that spins is reported, not waited for. "
             "OBSERVED ONLY (partial): wall-clock latency (<= limit + 1 s), real signal delivery, real thread scheduling, and that closing a real "
             "transport ends a blocked read (real Telnet over a loopback socket - fixed in 9660fae - and the real system transport over a pty).",
     "note": "Trusted: Coq kernel + vm_compute; the hand model coq/model/Timeout.v (tied by the correspondence run only: ~235 cases + ~30 "
@@ -1419,6 +1640,15 @@ MANIFEST = {
             "is a syntactic ast fact about decorators.py (state kept by the transports / channels themselves is not looked at), backed "
             "by the history scenarios. What signal.signal raises outside the main thread is not modelled (select_mech never gives "
             "MSignal there; the oracle sees the ValueError). "
+            "Peer-EOF scenarios: the telnet login that retries on EOF is compared with the model as a body that cannot complete and "
+            "that closing the transport ends (StallClosed at operation level, no inner limit: its reads answer at once); the retry loop "
+            "itself is not modelled. EOF during the other operations / single calls is ORACLE-ONLY (the model's reads return, raise "
+            "the harness's exception or stall; it has no read that raises the transport's connection error). Re-opened sessions: the "
+            "earlier, cut sessions (send_input_and_read's temporary transport timeout, cancellation from outside, the re-open) are NOT "
+            "modelled and their outcomes are recorded, not judged; the model predicts the last session's stalled call from the configured "
+            "limits alone (history independence), which is what the oracle demands. Sync signal mechanism + send_input_and_read cut by "
+            "timeout_ops is generated with NO_TERMINATE off only: the handler's ScrapliTimeout is swallowed by that loop's "
+            "suppress(ScrapliTimeout) (C14's ground). "
             "Not modelled: send_input_and_read's "
             "suppress(ScrapliTimeout) / temporary transport timeout (C14's ground), paramiko/ssh2 internal socket timeouts, a coroutine that "
             "swallows CancelledError. Known findings: thread mechanism + NO_TERMINATE_ON_TIMEOUT joins the stalled worker; signal-over-signal "
